@@ -310,7 +310,37 @@ func (vc *VC) frameFacts(ver, ref string) {
 		}
 		vc.assume(sImp(sAnd(conds...), fmt.Sprintf("(= (select %s %s) (select %s %s))", ver, ref, info.parent, ref)))
 		vc.frameFacts(info.parent, ref)
+	case 4:
+		// everything may have changed except the protected objects
+		var alts []string
+		for _, e := range info.exempt {
+			alts = append(alts, fmt.Sprintf("(= %s %s)", ref, e))
+		}
+		vc.assume(sImp(sOr(alts...), fmt.Sprintf("(= (select %s %s) (select %s %s))", ver, ref, info.parent, ref)))
+		vc.frameFacts(info.parent, ref)
 	}
+}
+
+// havocProtect forgets every heap array known so far except the cells of the
+// protected objects (contract clause `preserves`).
+func (vc *VC) havocProtect(st *State, protect []string, keepPrefixes []string) {
+	for _, key := range sortedKeys(vc.heapSort) {
+		keep := false
+		for _, p := range keepPrefixes {
+			if strings.HasPrefix(key, p) {
+				keep = true
+			}
+		}
+		if keep {
+			continue
+		}
+		old := vc.heapVer(st, key)
+		n := vc.name("Hp_" + vc.sorts().shortName("heap:"+key))
+		vc.emit(fmt.Sprintf("(declare-const %s %s)", n, vc.heapSort[key]))
+		vc.ver[n] = &verInfo{kind: 4, parent: old, exempt: protect, framed: true}
+		st.heap[key] = n
+	}
+	vc.bumpNext(st)
 }
 
 func (vc *VC) readCell(st *State, key, ref string) string {
